@@ -74,9 +74,18 @@ class PairCase:
                     od = np.asarray(o.data, dtype=object)
                     if g is None:
                         g = symarr("g", od.shape)
+                    g2 = {}
                     if od.shape == g.shape and o.requires_grad:
                         o.backward(Tensor(g.copy()))
-                    out.append((od, {l.name: T[l.name]._grad for l in self.leaves}))
+                        g1 = {l.name: T[l.name]._grad for l in self.leaves}
+                        # differentiate the same graph once more (leaf buffers reset): the two forms must also coincide then
+                        for l in self.leaves:
+                            T[l.name]._grad = None
+                        o.backward(Tensor(g.copy()))
+                        g2 = {l.name: T[l.name]._grad for l in self.leaves}
+                    else:
+                        g1 = {l.name: T[l.name]._grad for l in self.leaves}
+                    out.append((od, g1, g2))
                 return out
             results = ex.run(one_path)
         res["paths"] = len(results)
@@ -95,6 +104,11 @@ class PairCase:
                     a = np.zeros(l.shape, dtype=object) if a is None else np.asarray(a, dtype=object)
                     b = np.zeros(l.shape, dtype=object) if b is None else np.asarray(b, dtype=object)
                     pairs.append(("grad[%s]" % l.name, a, b))
+                    if left[2] and right[2]:
+                        a2, b2 = left[2].get(l.name), right[2].get(l.name)
+                        a2 = np.zeros(l.shape, dtype=object) if a2 is None else np.asarray(a2, dtype=object)
+                        b2 = np.zeros(l.shape, dtype=object) if b2 is None else np.asarray(b2, dtype=object)
+                        pairs.append(("grad_of_second_sweep[%s]" % l.name, a2, b2))
             for what, a, b in pairs:
                 oname = "%s.%s_equal" % (self.name, what)
                 if a.shape != b.shape:
@@ -141,23 +155,34 @@ class PairCase:
                         o = side(T)
                         if gv is None:
                             gv = np.array([rng.uniform(-2, 2) for _ in range(max(1, o.data.size))]).reshape(o.data.shape)
+                        snap = lambda: {l.name: (None if T[l.name]._grad is None else np.array(T[l.name]._grad)) for l in self.leaves}
                         if o.requires_grad and o.data.shape == gv.shape:
                             o.backward(Tensor(gv.copy()))
-                        outs.append((np.array(o.data, dtype=np.float64), {l.name: (None if T[l.name]._grad is None else np.array(T[l.name]._grad)) for l in self.leaves}))
+                            first = snap()
+                            for l in self.leaves:
+                                T[l.name]._grad = None
+                            o.backward(Tensor(gv.copy()))           # second sweep over the same graph
+                            sec = snap()
+                        else:
+                            first = sec = snap()
+                        outs.append((np.array(o.data, dtype=np.float64), first, sec))
             except Exception as e:
                 rep.update({"reproduced": True, "native_exception": "%s: %s" % (type(e).__name__, str(e)[:200]), "inputs": {k: v.tolist() for k, v in vals.items()}})
                 return rep
             rep["points"] += 1
-            (v1, g1), (v2, g2) = outs
+            (v1, g1, s1), (v2, g2, s2) = outs
             bad = v1.shape != v2.shape or not np.allclose(v1, v2, rtol=1e-6, atol=1e-9)
             for l in self.leaves:
                 if l.requires_grad:
-                    a = np.zeros(l.shape) if g1[l.name] is None else g1[l.name]
-                    b = np.zeros(l.shape) if g2[l.name] is None else g2[l.name]
-                    bad = bad or a.shape != b.shape or not np.allclose(a, b, rtol=1e-6, atol=1e-9)
+                    for x1, x2 in ((g1, g2), (s1, s2)):
+                        a = np.zeros(l.shape) if x1[l.name] is None else x1[l.name]
+                        b = np.zeros(l.shape) if x2[l.name] is None else x2[l.name]
+                        bad = bad or a.shape != b.shape or not np.allclose(a, b, rtol=1e-6, atol=1e-9)
             if bad:
                 rep.update({"reproduced": True, "inputs": {k: v.tolist() for k, v in vals.items()}, "upstream": gv.tolist(), "lhs_value": v1.tolist(), "rhs_value": v2.tolist(),
-                            "lhs_grads": {k: (None if v is None else v.tolist()) for k, v in g1.items()}, "rhs_grads": {k: (None if v is None else v.tolist()) for k, v in g2.items()}})
+                            "lhs_grads": {k: (None if v is None else v.tolist()) for k, v in g1.items()}, "rhs_grads": {k: (None if v is None else v.tolist()) for k, v in g2.items()},
+                            "lhs_grads_second_sweep": {k: (None if v is None else v.tolist()) for k, v in s1.items()},
+                            "rhs_grads_second_sweep": {k: (None if v is None else v.tolist()) for k, v in s2.items()}})
                 return rep
         return rep
 
